@@ -1,4 +1,4 @@
-//go:build verif
+//go:build verif && vi_pvm_c33
 
 package PVM
 
